@@ -2,7 +2,7 @@
     Depends on Model/ only, so it builds (and the correspondence check runs) even when a
     proof obligation of some property is broken. *)
 From Coq Require Import List ZArith NArith Bool.
-From CqlProxy Require Import Lib.Val Lib.Util Model.Config Model.LB Model.Codec.
+From CqlProxy Require Import Lib.Val Lib.Util Model.Config Model.LB Model.Codec Model.Retry.
 Import ListNotations.
 Local Open Scope N_scope.
 
@@ -10,12 +10,16 @@ Definition run_prop (prop : bytes) (input : val) : val :=
   if bytes_eqb prop (str "C20") then run_c20 input
   else if bytes_eqb prop (str "C15") then run_c15 input
   else if bytes_eqb prop (str "C11") then run_c11 input
+  else if bytes_eqb prop (str "C05") then run_c05 input
+  else if bytes_eqb prop (str "C04") then run_c05 input
   else L [B (str "unknown-property")].
 
 Definition holds_prop (prop : bytes) (input output : val) : val :=
   if bytes_eqb prop (str "C20") then holds_c20 input output
   else if bytes_eqb prop (str "C15") then holds_c15 input output
   else if bytes_eqb prop (str "C11") then holds_c11 input output
+  else if bytes_eqb prop (str "C05") then holds_c05 input output
+  else if bytes_eqb prop (str "C04") then holds_c05 input output
   else B (str "unknown-property").
 
 (** One line of the case file: [input TAB impl_output]  ->  [model_output TAB holds]. *)
